@@ -260,7 +260,7 @@ theorem truncate_spec (a : EA) (m : Mem) (h : Inv a) :
   unfold truncate
   by_cases h0 : a.size = 0
   · simp only [h0, if_true]
-    refine ⟨⟨by simp, by simp, by simp [SZ_eq]⟩, fun _ => ⟨by simp [h0], by simp, by simp [h0]⟩, by simp, ?_⟩
+    refine ⟨⟨by simp, by simp, by simp [SZ_eq]⟩, fun _ => ⟨by simp, by simp, by simp⟩, by simp, ?_⟩
     have := (free_facts m (a.alloc == 0)).2.1
     simp only [bufBlocks]; by_cases ha : a.alloc = 0 <;> simp [ha] at this ⊢ <;> omega
   · simp only [h0, if_false]
@@ -406,7 +406,7 @@ theorem step_exportdup (a : EA) (r : RecLen) (m : Mem) (h : Inv a) : StepOk a (.
   · subst h1; subst h2
     have : (ans St.ok a m m' (some (a.buf.take a.size, a.size / r.val))).st = St.ok := rfl
     simp only [this]
-    rw [if_pos (by simp [ans, abs, hal]; rw [← hal]; simp [abs])]
+    rw [if_pos (by simp [ans, abs]; rw [← hal]; simp [abs])]
     exact shape_abs h _ _ _ _
   · subst h1; subst h2
     have : (ans St.fail a m m' none).st = St.fail := rfl
